@@ -231,6 +231,20 @@ class C18(Property):
         # (1) result == result on the documented binary image
         if rule != "otsu" or otsu_ok:
             ctx.require(em_bytes(res_all) == em_bytes(ref), f"threshold-semantics:{rule}", f"rule {rule}: locate_droplets gives {len(res_all)} droplets, the binary image (data > {t}) gives {len(ref)}")
+        # (1b) the same image stored with an integer dtype (values x 64 are exact integers for these fields) gives the same result
+        #      as the float field holding those integer values
+        if spec["field"]["kind"] in ("noise", "few", "long") and (rule != "otsu" or otsu_ok):
+            ints = np.round(data * Q)
+            if np.array_equal(ints / Q, data) and np.abs(ints).max() < 2**31:
+                ctx.cls("integer-field")
+                thr_i = (t * Q) if rule == "number" else rule
+                f_float = ScalarField(grid, ints.astype(float))
+                f_int = ScalarField(grid, ints.astype(np.int64), dtype=np.int64)
+                r_float = locate_droplets(f_float, threshold=thr_i, minimal_radius=-np.inf)
+                r_int = locate_droplets(f_int, threshold=thr_i, minimal_radius=-np.inf)
+                ctx.require(em_bytes(r_int) == em_bytes(r_float), f"representation:int:{rule}", f"rule {rule}: an int64 field gives {len(r_int)} droplets, the float field with the same values {len(r_float)}")
+                if rule == "otsu":
+                    ctx.require(threshold_otsu(ints.astype(np.int64)) == threshold_otsu(ints.astype(float)), "representation:int:threshold_otsu", "threshold_otsu differs between an integer array and the float array with the same values")
         # (3) affine invariance
         if rule != "otsu" or otsu_ok:
             res2 = locate_droplets(field2, threshold=thr_arg2, minimal_radius=-np.inf)
